@@ -40,8 +40,7 @@ Definition list_ok_b (d : decl_full) : bool :=
 Definition wf_env_b (g : env) : bool :=
   forallb (fun ks => forallb (fun p => convert_ok SwaggerGen.field_alternatives (p_ty p)) (schema_props (snd ks))) g.
 
-Definition flat_free_b (g : env) : bool :=
-  forallb (fun ks => forallb (fun p => match is_flat (p_ty p) with None => true | Some _ => false end) (schema_props (snd ks))) g.
+Definition no_flatten_cycle_b (g : env) : bool := match client_env g with Some _ => true | None => false end.
 
 Definition valid_package_b (P : decl_package) : bool :=
   forallb (fun d => wf_decl_b (df_decl d)) (all_methods P)
@@ -49,5 +48,5 @@ Definition valid_package_b (P : decl_package) : bool :=
   && forallb list_ok_b (all_methods P)
   && all_refs_link (im_schemas (compile_image to_snake P))
   && wf_env_b (im_schemas (compile_image to_snake P))
-  && flat_free_b (im_schemas (compile_image to_snake P)).
+  && no_flatten_cycle_b (im_schemas (compile_image to_snake P)).
 End Valid.
